@@ -216,11 +216,27 @@ impl LuauRequireMode {
             }
         };
 
+        let complete_path = generated_path.clone();
+
         if self.is_module_folder_name(&generated_path) {
             generated_path.pop();
         } else if matches!(generated_path.extension(), Some(extension) if extension == "lua" || extension == "luau")
         {
             generated_path.set_extension("");
+        }
+
+        // keep the complete path if the shortened one resolves to another file
+        // that takes precedence (e.g. `m.lua` next to `m/init.lua`)
+        if generated_path != complete_path {
+            let locator =
+                LuauPathLocator::new(self, context.project_location(), context.resources());
+            if let Ok(found_path) =
+                locator.find_require_path(generated_path.clone(), context.current_path())
+            {
+                if utils::normalize_path(found_path) != utils::normalize_path(require_path) {
+                    generated_path = complete_path;
+                }
+            }
         }
 
         path_utils::write_require_path(&generated_path).map(generate_require_arguments)
